@@ -391,6 +391,13 @@ def div(a, b):
     bits, signed = a.bits, a.signed
     if b.lo <= 0 <= b.hi:
         return AInt.top(bits, signed, taint=taint2(a, b))
+    if b.is_const() and b.lo > 0 and (b.lo & (b.lo - 1)) == 0 and a.lo >= 0 and a.sym is not None:
+        # non-negative dividend, power-of-two divisor: a logical shift right keeps the symbolic bits
+        k = b.lo.bit_length() - 1
+        S = a.symbits()
+        sym = S[k:] + [0] * k
+        r = AInt(bits, signed, a.lo >> k, a.hi >> k, sym=sym, taint=taint2(a, b))
+        return r
     lo, hi = _corners(_tdiv, a, b)
     # division is monotone in each argument when the divisor sign is fixed; include 0 crossing of a
     if a.lo < 0 < a.hi:
@@ -407,6 +414,11 @@ def rem(a, b):
     if a.is_const() and b.is_const():
         q = _tdiv(a.lo, b.lo)
         return AInt.const(bits, signed, a.lo - q * b.lo, taint=taint2(a, b))
+    if b.is_const() and b.lo > 0 and (b.lo & (b.lo - 1)) == 0 and a.lo >= 0 and a.sym is not None:
+        k = b.lo.bit_length() - 1
+        S = a.symbits()
+        sym = S[:k] + [0] * (bits - k)
+        return AInt(bits, signed, 0, min(a.hi, b.lo - 1), sym=sym, taint=taint2(a, b))
     m = max(abs(b.lo), abs(b.hi)) - 1
     lo = -m if a.lo < 0 else 0
     hi = m if a.hi > 0 else 0
